@@ -5,7 +5,7 @@
 //! re-validates every String; the debug-assertion build additionally aborts inside
 //! `char::from_u32_unchecked` on an invalid value (observed by the supervisor as a
 //! worker death). Miri part (thorough): see tools/miri_run.py.
-use icy_engine::{BitFont, Buffer, BufferParser, Caret, Layer, TextPane};
+use icy_engine::{BitFont, Buffer, BufferParser, Caret, Layer, TextAttribute, TextPane};
 use serde::{Deserialize, Serialize};
 use serde_json::{json, Value};
 
@@ -254,6 +254,11 @@ impl C10 {
                 let b = 0xD800 + (k2 as u32 - 427) * 64;
                 C10Case { kind: "icy-cells-cont".into(), values: (b..b + 64).collect(), bytes: vec![], note: "continuation chunk, bigfont".into() }
             }
+            459..=474 => {
+                // clipboard records with a surrogate as character under all 65536 attribute words, 4096 per case
+                let b = (k2 as u32 - 459) * 4096;
+                C10Case { kind: "clipboard".into(), values: (b..b + 4096).collect(), bytes: vec![], note: "attr-sweep".into() }
+            }
             _ => {
                 let mut rng = ctx.rng(k);
                 match rng.usize(6) {
@@ -308,15 +313,39 @@ impl C10 {
                     data.extend(0i32.to_le_bytes());
                     data.extend((n as u32).to_le_bytes());
                     data.extend(1u32.to_le_bytes());
-                    for v in &c.values {
-                        data.extend((*v as u16).to_le_bytes());
-                        data.extend(0u16.to_le_bytes());
-                        data.extend(0u16.to_le_bytes());
-                        data.extend(0u32.to_le_bytes());
-                        data.extend(7u32.to_le_bytes());
+                    let head = data.clone();
+                    // the other fields of the 14-byte record: (attribute word, font page, background, foreground). Enumerated
+                    // cases run every value under each template (plain, each single flag bit - 0x8000 is INVISIBLE, the
+                    // record of a cell outside the selection -, all bits, transparent colours); "attr-sweep" cases hold the
+                    // character at a surrogate and run every attribute word
+                    let mut templates: Vec<(u16, u16, u32, u32)> = vec![(0, 0, 0, 7)];
+                    if c.note == "random" {
+                        let h = crate::rng::hash_str(&format!("{:?}", c.values));
+                        templates = vec![(h as u16, (h >> 16) as u16, (h >> 32) as u32 & 0x8000_00FF, (h >> 40) as u32 & 0x8000_00FF)];
+                    } else if c.note != "attr-sweep" {
+                        templates.extend((0..16).map(|b| (1u16 << b, 0u16, 0u32, 7u32)));
+                        templates.push((0xFFFF, 0xFFFF, 0xFFFF_FFFF, 0xFFFF_FFFF));
+                        templates.push((0xC000, 1, TextAttribute::TRANSPARENT_COLOR, TextAttribute::TRANSPARENT_COLOR));
                     }
-                    if let Some(l) = Layer::from_clipboard_data(&data) {
-                        scan_layer(&mut scan, "clipboard layer", &l);
+                    for (attr, fp, bg, fg) in templates {
+                        data.clear();
+                        data.extend(&head);
+                        for (i, v) in c.values.iter().enumerate() {
+                            if c.note == "attr-sweep" {
+                                data.extend(([0xD800u16, 0xDFFF, 0xDBFF, 0xDC00][i % 4]).to_le_bytes());
+                                data.extend((*v as u16).to_le_bytes());
+                            } else {
+                                data.extend((*v as u16).to_le_bytes());
+                                data.extend(attr.to_le_bytes());
+                            }
+                            data.extend(fp.to_le_bytes());
+                            data.extend(bg.to_le_bytes());
+                            data.extend(fg.to_le_bytes());
+                        }
+                        if let Some(l) = Layer::from_clipboard_data(&data) {
+                            scan_layer(&mut scan, "clipboard layer", &l);
+                            results += 1;
+                        }
                     }
                 }
                 "icy-cells" | "icy-cells-cont" | "icy-title" | "icy-fontname" => {
@@ -481,7 +510,7 @@ impl C10 {
                 ctx.count("chars_checked", scan.cells);
                 ctx.count("strings_checked", scan.strings);
                 ctx.count("values_tried", case.values.len() as u64);
-                ctx.fp(crate::rng::mix(crate::rng::hash_str(&case.kind), case.values.first().copied().unwrap_or(0) as u64 ^ crate::rng::hash_bytes(&case.bytes) ^ results << 50));
+                ctx.fp(crate::rng::mix(crate::rng::hash_str(&case.kind) ^ crate::rng::hash_str(&case.note), case.values.first().copied().unwrap_or(0) as u64 ^ crate::rng::hash_bytes(&case.bytes) ^ results << 50));
                 if ctx.want_sample() && ctx.evaluations % 41 == 7 {
                     ctx.sample(json!({"kind": case.kind, "note": case.note, "first_values": case.values.iter().take(6).collect::<Vec<_>>(), "bytes": case.bytes.iter().take(16).collect::<Vec<_>>(), "chars_checked": scan.cells, "strings_checked": scan.strings}));
                 }
@@ -502,7 +531,7 @@ impl Prop for C10 {
         "C10"
     }
     fn rule(&self) -> &'static str {
-        "after every case a raw-bits monitor reads every stored char of every layer, every glyph-table key and every composited cell as u32 (volatile read) and checks 0..=0xD7FF | 0xE000..=0x10FFFF, and re-validates the bytes of every String (titles, font names, macro bodies via hook H5, hyperlinks, palette strings) with str::from_utf8; the verdict-bearing build has debug assertions, so an invalid value passed to char::from_u32_unchecked aborts the worker (attributed to the case). cases: fill-rectangle (DECFRA) character parameter - every value 0..=0x110010 in thorough (every 4th in quick) plus all 2048 surrogates, boundaries, 2^k+-1 up to 2^31-1; all 65536 clipboard cell values; IcyDraw long-form cells with all surrogates / boundaries / random 32-bit values in first and continuation chunks (the surrogates also on the font page of an embedded PSF2 font with 57400 glyphs); layer titles and font names with 8 invalid-UTF-8 classes and random bytes; font data of 1..2^17 glyphs (PSF1, PSF2, create_8, from_basic, re-encoders); all 256x256 hex-macro byte pairs; random DCS/OSC streams. distinct_nontrivial = distinct (kind, first value / payload, accepted count) fingerprints"
+        "after every case a raw-bits monitor reads every stored char of every layer, every glyph-table key and every composited cell as u32 (volatile read) and checks 0..=0xD7FF | 0xE000..=0x10FFFF, and re-validates the bytes of every String (titles, font names, macro bodies via hook H5, hyperlinks, palette strings) with str::from_utf8; the verdict-bearing build has debug assertions, so an invalid value passed to char::from_u32_unchecked aborts the worker (attributed to the case). cases: fill-rectangle (DECFRA) character parameter - every value 0..=0x110010 in thorough (every 4th in quick) plus all 2048 surrogates, boundaries, 2^k+-1 up to 2^31-1; all 65536 clipboard cell values under 19 record templates (plain, each single attribute flag bit - 0x8000 marks the cells outside a selection -, all bits set, transparent colours) and the surrogates under all 65536 attribute words; IcyDraw long-form cells with all surrogates / boundaries / random 32-bit values in first and continuation chunks (the surrogates also on the font page of an embedded PSF2 font with 57400 glyphs); layer titles and font names with 8 invalid-UTF-8 classes and random bytes; font data of 1..2^17 glyphs (PSF1, PSF2, create_8, from_basic, re-encoders); all 256x256 hex-macro byte pairs; random DCS/OSC streams. distinct_nontrivial = distinct (kind, first value / payload, accepted count) fingerprints"
     }
     fn meta(&self, ctx: &Ctx) -> Value {
         json!({"floor_evaluations": 1000, "floor_distinct": ctx.tier.pick(500u64, 2000u64),
@@ -512,7 +541,7 @@ impl Prop for C10 {
         self.frame = files::build_corpus().into_iter().find(|s| s.name == "tiny.icy").map(|s| s.bytes).unwrap_or_default();
         self.fill_step = ctx.tier.pick(4, 1);
         self.n_fill = (0x11_0010u64 / (64 * self.fill_step)) + 1;
-        self.n_fill + 459 + ctx.tier.pick(20_000, 200_000)
+        self.n_fill + 475 + ctx.tier.pick(20_000, 200_000)
     }
     fn run_case(&mut self, ctx: &mut Ctx, k: u64) {
         let case = self.case_for(ctx, k);
